@@ -38,6 +38,7 @@ class PybindWrapper:
         self.use_boost_serialization = use_boost_serialization
         self.ignore_classes = ignore_classes
         self._serializing_classes = []
+        self._declared_submodules = set()
         self.module_template = module_template
         self.python_keywords = [
             'lambda', 'False', 'def', 'if', 'raise', 'None', 'del', 'import',
@@ -648,7 +649,11 @@ class PybindWrapper:
         else:
             module_var = self._gen_module_var(namespaces)
 
-            if len(namespaces) > len(self.top_module_namespaces):
+            if len(namespaces) > len(self.top_module_namespaces) and \
+                    module_var not in self._declared_submodules:
+                # A namespace may be opened several times in one file;
+                # its submodule variable is declared the first time only.
+                self._declared_submodules.add(module_var)
                 wrapped += (
                     ' ' * 4 + 'pybind11::module {module_var} = '
                     '{parent_module_var}.def_submodule("{namespace}", "'
@@ -718,6 +723,7 @@ class PybindWrapper:
         # Instantiate all templates
         module = instantiator.instantiate_namespace(module)
 
+        self._declared_submodules = set()
         wrapped_namespace, includes = self.wrap_namespace(module)
 
         if self.use_boost_serialization:
